@@ -28,7 +28,7 @@ def strategy_(draw, tier):
     big = tier == "thorough"
     n = draw(st.integers(4, 40 if big else 13))
     m = draw(st.integers(4, 24 if big else 10))
-    kind = draw(st.sampled_from(["generic", "generic", "eighths", "lowrank", "dup", "nearlowrank"]))
+    kind = draw(st.sampled_from(["generic", "generic", "eighths", "lowrank", "dup", "nearlowrank", "narrowint"]))
     if kind == "nearlowrank":
         r0 = draw(st.integers(1, max(1, min(n, m) - 2)))
         X0 = gen.normal(draw, (n, r0)) @ gen.normal(draw, (r0, m)) + 1e-5 * gen.normal(draw, (n, m))
@@ -44,7 +44,7 @@ def strategy_(draw, tier):
         # with the default absolute tolerance 1e-12 the rounding noise of the data (~1e-16 x scale) must stay below it,
         # otherwise a dependent item picked through a stale score is "orthogonalised" against noise
         scale = draw(st.sampled_from([1.0, 1.0, 10.0, 0.1, 1e-3, 1e-7]))
-    X = (X0 if X0 is not None else gen.matrix(draw, n, m, kind)) * scale
+    X = (X0 if X0 is not None else gen.matrix(draw, n, m, kind)) * (1.0 if kind == "narrowint" else scale)
     cls = draw(st.sampled_from(["CUR", "PCovCUR"]))
     direction = draw(st.sampled_from(["feature", "sample"]))
     k = draw(st.integers(1, min(3, min(n, m) - 1)))
@@ -56,11 +56,14 @@ def strategy_(draw, tier):
     if cls == "PCovCUR":
         params["mixing"] = draw(st.sampled_from([0.0, 0.2, 0.5, 0.8, 1.0]))
     y = S.draw_y(draw, n, X)
+    if kind == "narrowint":
+        y = S.narrow(draw, X, y, params)
     # optionally reach nsel through a warm start, possibly with another refresh interval for the first part
     warm = None
     if nsel >= 2 and draw(st.integers(0, 9)) < 3:
         warm = {"first_n": draw(st.integers(1, nsel - 1)), "first_recompute": draw(st.sampled_from([0, 1, 2, params["recompute_every"]]))}
-    return {"cls": cls, "direction": direction, "kind": kind, "X": X, "y": y, "params": params, "nsel": nsel, "rank": r, "warm": warm}
+    return {"cls": cls, "direction": direction, "kind": kind, "X": X, "y": y, "params": params, "nsel": nsel, "rank": r, "warm": warm,
+            "nform": draw(st.sampled_from(["int", "int", "fraction"]))}
 
 
 def strategy(tier):
@@ -199,20 +202,31 @@ def check(case, ctx):
     prm = case["params"]
     ctx.cls("cls=%s/%s" % (cls, direction), "kind=" + case["kind"], "recompute_every=%d" % prm["recompute_every"], "k=%d" % prm["k"])
     warm = case.get("warm")
+    N = X.shape[axis]
+
+    def req(n):
+        # the same count requested as a fraction of the items (or by default, where that resolves to it)
+        if case.get("nform", "int") == "int":
+            return n
+        if n == N // 2 and n >= 1:
+            return None
+        return 1.0 if n == N else (n + 0.5) / N
+    if case.get("nform", "int") != "int":
+        ctx.cls("request=fraction")
     if warm:
         # fit the first part (possibly with another refresh interval), then change the parameters and continue
         ctx.cls("warm_chain", "first_recompute=%d" % warm["first_recompute"])
         p0 = dict(prm, recompute_every=warm["first_recompute"])
-        sel = S.make(cls, direction, n_to_select=warm["first_n"], **p0)
+        sel = S.make(cls, direction, n_to_select=req(warm["first_n"]), **p0)
         with ctx.lib("fit-first-part"):
             sel.fit(X, y)
         sel.recompute_every = prm["recompute_every"]
-        sel.n_to_select = case["nsel"]
+        sel.n_to_select = req(case["nsel"])
         rec = S.Recorder(sel)
         with ctx.lib("fit-warm"):
             sel.fit(X, y, warm_start=True)
     else:
-        sel = S.make(cls, direction, n_to_select=case["nsel"], **prm)
+        sel = S.make(cls, direction, n_to_select=req(case["nsel"]), **prm)
         rec = S.Recorder(sel)
         with ctx.lib("fit"):
             sel.fit(X, y)
